@@ -1,6 +1,7 @@
 package main
 
 import (
+	"strings"
 	"fmt"
 	"go/token"
 	"go/types"
@@ -358,4 +359,67 @@ func guardedBelow(f *ssa.Function, b *ssa.BasicBlock, F *types.Var) bool {
 		}
 	}
 	return false
+}
+
+// depthLimitAccepted: for the guard that compares a depth counter field with a constant K in the functions of comp,
+// the number of nested levels that pass it: `reject when F >= K` tested before the level is counted accepts K levels,
+// the same test after the increment accepts K-1; `reject when F > K` one more each.
+func depthLimitAccepted(comp []*ssa.Function) (accepted, k int64, at token.Pos, found bool) {
+	for _, f := range comp {
+		for _, g := range f.Blocks {
+			iff, ok := g.Instrs[len(g.Instrs)-1].(*ssa.If)
+			if !ok {
+				continue
+			}
+			bo, ok := iff.Cond.(*ssa.BinOp)
+			if !ok {
+				continue
+			}
+			x, y, op := bo.X, bo.Y, bo.Op
+			if _, isC := constInt(x); isC {
+				x, y = y, x
+				op = map[token.Token]token.Token{token.LSS: token.GTR, token.LEQ: token.GEQ, token.GTR: token.LSS, token.GEQ: token.LEQ}[op]
+			}
+			kv, isC := constInt(y)
+			if !isC {
+				continue
+			}
+			ld, isLd := x.(*ssa.UnOp)
+			fld, _ := loadedField(x)
+			if fld == nil || !isLd || !strings.Contains(strings.ToLower(fld.Name()), "depth") {
+				continue
+			}
+			// levels that pass: F < K -> K ; F <= K -> K+1 (F is the number of enclosing levels)
+			pass := int64(0)
+			switch op {
+			case token.GEQ, token.LSS: // reject F >= K  /  pass F < K
+				pass = kv
+			case token.GTR, token.LEQ: // reject F > K  /  pass F <= K
+				pass = kv + 1
+			default:
+				continue
+			}
+			// is this level already counted when the guard reads the counter?
+			counted := false
+			eachInstr(f, func(_ *ssa.BasicBlock, _ int, in ssa.Instruction) {
+				st, ok := in.(*ssa.Store)
+				if !ok {
+					return
+				}
+				if sf, _ := fieldAddr(st.Addr); sf != fld {
+					return
+				}
+				if add, ok := st.Val.(*ssa.BinOp); ok && add.Op == token.ADD {
+					if c1, isC1 := constInt(add.Y); isC1 && c1 == 1 && instrDominates(st, ld) {
+						counted = true
+					}
+				}
+			})
+			if counted {
+				pass--
+			}
+			return pass, kv, iff.Pos(), true
+		}
+	}
+	return 0, 0, token.NoPos, false
 }
